@@ -50,6 +50,9 @@ MUTANTS = [
     ("vt.contracts.processor_nodes", "optimize_greedy", "cotengra/pathfinders/path_basic.py", "                contractions[c] = (k, l, msize, mlegs)", "                contractions[c] = (k, k, msize, mlegs)"),
     ("vt.contracts.processor_nodes", "neighbors", "cotengra/pathfinders/path_basic.py", "                if j != i:\n                    yield j", "                if True:\n                    yield j"),
     ("vt.contracts.processor_nodes", "simplify_scalars", "cotengra/pathfinders/path_basic.py", "                scalars[p + 1] = k", "                pass"),
+    # C07 SliceFinder.trial: a forbidden index accepted, a slicing cached under the wrong set of indices
+    ("vt.contracts.slicer_costs", "SliceFinder.trial", "cotengra/slicer.py", "            if ix in self.forbidden:", "            if False:"),
+    ("vt.contracts.slicer_costs", "SliceFinder.trial", "cotengra/slicer.py", "                next_cost = self.costs[next_ix_sl] = cost.remove(ix)", "                next_cost = self.costs[ix_sl] = cost.remove(ix)"),
     # C09 DP step: the seeded early sieve on the children's scores, a table update that can make an entry worse, a lost update
     ("vt.contracts.dp_step", "optimize_optimal_connected", "cotengra/pathfinders/path_basic.py", "                        # do sorted simultaneous iteration over ilegs and jlegs", "                        if iscore + jscore > cost_cap:\n                            continue"),
     ("vt.contracts.dp_step", "optimize_optimal_connected", "cotengra/pathfinders/path_basic.py", "if (current is None) or (new_score < current[1]):", "if True:"),
